@@ -263,5 +263,16 @@ def check(ctx):
             v = p.value
             okr = Q.grown(v) is not None and (v[0] == "comp" or len(v[1]) == 1) and Q.grown(v)[2] == us[0]
             ctx.check("R4", EW + "|one-index-set-per-size", True if okr else None, "the result holds one unravelled index set per size", fn=EW)
+        # an index set that is the query's own list turned into an array WITHOUT an integer dtype: an empty window gives np.asarray([]) -
+        # a float64 array, which cannot index (the reason the code converts with dtype="int" before unravelling)
+        floaty = [x for d in ([p.value] + [dd for e in p.events for dd in e.data if isinstance(dd, tuple)]) for x in walk(d)
+                  if isinstance(x, tuple) and x and x[0] == "call" and callee(x) in ("numpy.asarray", "numpy.array", "numpy.asanyarray") and x[2]
+                  and x[2][0] == ("sub", q, const(0)) and kw(x, "dtype") is None and len(x[2]) == 1]
+        used_raw = [x for x in floaty if not any(u[2] and any(y == x for y in walk(u[2][0])) for u in us)]
+        if used_raw:
+            ctx.add("R4", EW + "|index-sets-have-an-integer-dtype", "VIOLATED", "a window's index list is converted with %s (no integer dtype) and used as an index without unravel_index: "
+                    "an empty window becomes a float64 array that cannot index the coordinates" % show(used_raw[0])[:60], fn=EW)
+        else:
+            ctx.check("R4", EW + "|index-sets-have-an-integer-dtype", True, "no index list is turned into an array of default (float for empty) dtype", fn=EW, nontrivial=False)
         ctx.check("R4", EW + "|single-centre-result", ok0, "element 0 of the single-centre query is used", bad="the wrong element of the query result is used", fn=EW)
         ctx.check("R4", EW + "|unravel-shape", oks, "indices are unravelled to the shape of the input coordinates", fn=EW)
